@@ -17,7 +17,8 @@ RULE = ('body = harness-encoded well-formed multipart/form-data (boundary over R
         'at i" and "whole body cut at i and j"). Enumerated per body: all single cuts, byte-at-a-time, regular k-byte '
         'cuts k=1..len(delimiter)+5, double cuts (sampled by hash in quick, exhaustive in thorough for bodies <= 220 '
         'bytes), plus the same body through WSGI under short-read patterns (forms/files compared with the full-read '
-        'result). Anchors: ref[n] == encoder ground-truth offsets, every ref[p] is error-free and a prefix of ref[n]. '
+        'result). Size dimension: a 12 KiB header block, a 6 KiB data run, and bodies of 50-2500 short parts (one piece == ground truth == final result of '
+        'regular divisions from 7 bytes to 16 KiB). Anchors: ref[n] == encoder ground-truth offsets, every ref[p] is error-free and a prefix of ref[n]. '
         'evaluations = divisions fed. Non-trivial division = some cut falls strictly inside a delimiter, a CRLFCRLF, '
         'the closing hyphens (+following CRLF) or the epilogue; distinct = (body hash, cuts).')
 ASSUMPTIONS = ['well-formedness comes from the harness encoder (boundary free of CR; header blocks contain no bare CR/LF)',
@@ -125,7 +126,37 @@ def wsgi_forms(boundary, body, pattern):
     return (r.code, seen.get('forms'), seen.get('files'))
 
 
+def check_many_parts(ctx, case):
+    """Size dimension: N short parts (tens of KiB). The all-prefix reference is quadratic, so here: one piece == ground truth, and the final
+    result of regular divisions (7 bytes .. 16 KiB) and of halves / thirds == the one-piece result."""
+    boundary = case['boundary']
+    parts = [{'name': 'f%d' % i, 'value': b'v%d' % i} for i in range(case['many_parts'])]
+    body, truth = encode_multipart(boundary, parts, b'', case.get('epilogue', b'\r\n'))
+    want = (tuple((k, (s, e)) for k, s, e in truth['sections']), None)
+    full = one_piece(boundary, body)
+    ctx.evals += 1
+    if full != want:
+        raise CheckFailure(f'one-piece parse of a body with {len(parts)} parts ({len(body)} bytes) differs from the ground truth: {len(full[0])} sections, error {full[1]}; '
+                           f'truth has {len(want[0])} sections')
+    n = len(body)
+    for cuts in [tuple(range(k, n, k)) for k in (7, 512, 4096, 16384)] + [(n // 2,), (n // 3, 2 * n // 3), (n - 1,), (1,)]:
+        ctx.evals += 1
+        off, snap = parse_division(boundary, body, cuts)[-1]
+        if snap != full:
+            raise CheckFailure(f'split-dependent result for a body with {len(parts)} parts: division into reads of {cuts[0] if cuts else n} bytes gives {len(snap[0])} sections / '
+                               f'error {snap[1]}, one piece gives {len(full[0])} sections / error {full[1]}')
+        ctx.nontrivial(('many', len(parts), cuts[:2], len(cuts)))
+    ref = wsgi_forms(boundary, body, None)
+    got = wsgi_forms(boundary, body, [4000, 100])
+    ctx.evals += 2
+    if ref != got or ref[0] != 200 or len(ref[1]) != len(parts):
+        raise CheckFailure(f'form with {len(parts)} fields through WSGI: status {ref[0]} / {got[0]}, {len(ref[1] or [])} / {len(got[1] or [])} fields delivered')
+    ctx.count('many_parts_bodies')
+
+
 def check_case(ctx, case):
+    if case.get('many_parts'):
+        return check_many_parts(ctx, case)
     boundary = case['boundary']
     body, truth = encode_multipart(boundary, case['parts'], case['preamble'], case['epilogue'])
     n = len(body)
@@ -276,6 +307,9 @@ def run(ctx):
                              {'name': 'a', 'value': b'after'}, {'name': 'b', 'value': b''}]}
         ctx.guarded(check_case, bigdata)
         ctx.count('large_data_body')
+        # ... and many parts in one read buffer
+        for nparts in (50, 400, 490, 500, 520, 1000, 2500):
+            ctx.guarded(check_case, {'boundary': 'bnd', 'many_parts': nparts})
     n = 220 if ctx.tier == 'quick' else 400
     ctx.hyp(body_case(), check_case, n)
     if ctx.tier == 'thorough' and ctx.shard < 4:
